@@ -251,7 +251,7 @@ func init() {
 	})
 	register(&Check{
 		ID: "C15", Level: "exploration",
-		Rule:        "at every quiescent step of the conformance histories: schedulable flag read immediately before every schedule request vs the outcome of that request and vs the model; running flag vs the job list of the same state; every accepted job reported by id and in the list exactly once; created<=start<=end, task start<=end; every 6th case is a directed life-cycle scenario (pipeline removed by a reload while its jobs run, saves that drop them, the dropped jobs ending, pipeline defined again) judged model-free: running flag vs job list, schedulable flag vs the request issued immediately afterwards, a pipeline reported idle starts the next job; a situation is (admission class, #running, #waiting[, decision]) resp. (life-cycle stage, flags, listed jobs)",
+		Rule:        "at every quiescent step of the conformance histories: schedulable flag read immediately before every schedule request vs the outcome of that request and vs the model; running flag vs the job list of the same state; every accepted job reported by id and in the list exactly once; created<=start<=end, task start<=end; every 6th case is a directed life-cycle scenario (pipeline removed by a reload while its jobs run, saves that drop them, the dropped jobs ending, pipeline defined again) judged model-free: running flag vs job list, schedulable flag vs the request issued immediately afterwards, a pipeline reported idle starts the next job; a situation is (admission class, #running, #waiting[, decision]) resp. (life-cycle stage, flags, listed jobs). On every restarted runner created <= start <= end and task start <= task end are judged as well",
 		Assumptions: []string{seqAssumption},
 		Cases:       func(t string) int { return tierN(t, 1600, 40000) },
 		RunCase: func(c *CaseCtx) *CaseResult {
@@ -311,7 +311,7 @@ func graphOpts(idx int, tier string) drv.HistOpts {
 func init() {
 	register(&Check{
 		ID: "C02", Level: "exploration",
-		Rule:        "graph histories: random DAGs on 1-8 tasks with randomly permuted names, diamonds / nested diamonds / fan-in / fan-out / isolated / empty-script tasks, cyclic variants (self loop, 2-cycle, long cycle, cycle beside a valid DAG) and jobs with the reserved variable, queued among ordinary jobs; gates are released in PRNG order so completion orders allowed by the DAG are sampled; thorough additionally runs all 543 labelled DAGs on 4 nodes x 3 name permutations (exhaustive for that sub-space). Oracles: at most one run-enter per (job, task); every dependency has a successful run-exit (or allow_failure failure) with a smaller sequence number; set of tasks inside the runner equals the task-level simulation after every step; plain-success jobs ran every task exactly once; unstartable jobs run nothing and end canceled with an error; other jobs conform to the model. A situation is (#deps of a started task) / (plain success with n tasks) / kind of unstartable job",
+		Rule:        "graph histories: random DAGs on 1-8 tasks with randomly permuted names, diamonds / nested diamonds / fan-in / fan-out / isolated / empty-script tasks, cyclic variants (self loop, 2-cycle, long cycle, cycle beside a valid DAG) and jobs with the reserved variable, queued among ordinary jobs; gates are released in PRNG order so completion orders allowed by the DAG are sampled; thorough additionally runs all 543 labelled DAGs on 4 nodes x 3 name permutations (exhaustive for that sub-space). Oracles: at most one run-enter per (job, task); every dependency has a successful run-exit (or allow_failure failure) with a smaller sequence number; set of tasks inside the runner equals the task-level simulation after every step; plain-success jobs ran every task exactly once; unstartable jobs run nothing and end canceled with an error; other jobs conform to the model. A situation is (#deps of a started task) / (plain success with n tasks) / kind of unstartable job. A sixth of the tasks that have a dependency name one of them twice in depends_on (the graph is the same)",
 		Assumptions: []string{seqAssumption},
 		Cases:       func(t string) int { return tierN(t, 1200, 543*3+30000) },
 		RunCase: func(c *CaseCtx) *CaseResult {
@@ -518,7 +518,7 @@ func delayParams(idx int) drv.DelayOpts {
 func init() {
 	register(&Check{
 		ID: "C07", Level: "exploration",
-		Rule:        "REAL timers (time.AfterFunc): start_delay d in {2,5,20} ms x strategy x queue_limit {nil,1,2} x concurrency {1,2} x bursts of 1-8 requests with gaps drawn from {0,d/4,d/2,0.9d,1.1d,2d} x pipeline busy or idle (blocker released 0..2d after the last request) x cancel of the waiter inside the burst; every 11th case is a 4-client stress burst with a random finisher. Oracles: Start-Created >= d and first run-enter - request issue time >= d (monotonic clocks; slowness can only enlarge them); with every pending delay handler returned (hook H2) a free slot and a waiting job never coexist at logical quiescence; replaced / canceled-while-waiting jobs never enter the runner; under replace no job starts after a newer one was accepted while it waited, and the most recently accepted job runs; plus conformance histories with logically fired delays (C07-tagged oracles of the sequential driver). A situation is (d, strategy, limit, concurrency, busy, gap pattern) / (executing, waiting) at quiescence",
+		Rule:        "REAL timers (time.AfterFunc): start_delay d in {2,5,20} ms x strategy x queue_limit {nil,1,2} x concurrency {1,2} x bursts of 1-8 requests with gaps drawn from {0,d/4,d/2,0.9d,1.1d,2d} x pipeline busy or idle (blocker released 0..2d after the last request) x cancel of the waiter inside the burst; every 11th case is a 4-client stress burst with a random finisher. Oracles: Start-Created >= d and first run-enter - request issue time >= d (monotonic clocks; slowness can only enlarge them); with every pending delay handler returned (hook H2) a free slot and a waiting job never coexist at logical quiescence; replaced / canceled-while-waiting jobs never enter the runner; under replace no job starts after a newer one was accepted while it waited, and the most recently accepted job runs; plus conformance histories with logically fired delays (C07-tagged oracles of the sequential driver). A situation is (d, strategy, limit, concurrency, busy, gap pattern) / (executing, waiting) at quiescence. Directed case: a burst on a delayed pipeline that was undefined (and saved) while its job ran - the newest job starts when its delay has passed, the replaced ones never run",
 		Assumptions: []string{seqAssumption, "timer expiry is observed through hook H2 (delay-handler entered/returned); no verdict depends on a wall-clock deadline"},
 		Cases:       func(t string) int { return tierN(t, 700, 14000) + tierN(t, 500, 10000) },
 		RunCase: func(c *CaseCtx) *CaseResult {
@@ -701,7 +701,7 @@ func simpleCase(c *CaseCtx, h *drv.HistResult, sampleEvery int) *CaseResult {
 func init() {
 	register(&Check{
 		ID: "C12", Level: "exploration",
-		Rule:        "populations: retention_count in {0,1,2,5} x retention_period in {0,1h,24h} per pipeline (1-3 pipelines + one that is no longer defined), 0-8 jobs per pipeline loaded from a prepared store file 'from an earlier run' (finished, canceled-unstarted, formerly running, formerly waiting; ages k*30min+7min so that every job is >= 7 minutes away from a period boundary) in shuffled file order, plus 0-4 live jobs per round (waiting, running, finished, failed, canceled) on the REAL JsonDataStore and FileOutputStore with log files for every job; optional reload that removes a pipeline; 1-3 rounds of activity + SaveToStore. Oracle = pure function of (view before, view after, store file, recursive hash of the log tree before/after): no waiting/running job removed; <= retention_count finished jobs left; none older than the period; a kept finished job has no removed newer finished job; nothing removed without settings; undefined pipelines purged; API id set == store id set == restarted runner; removed jobs' log directories gone, kept jobs' log files byte-identical. A situation is (count, period, #finished, #unfinished). Every 25th case: 2-5 SaveToStore calls at the same time on a store whose Save takes 0.5-2 ms, with nothing else going on: whenever one of the calls returns, the last snapshot the store has COMPLETED holds exactly the jobs the API reports",
+		Rule:        "populations: retention_count in {0,1,2,5} x retention_period in {0,1h,24h} per pipeline (1-3 pipelines + one that is no longer defined), 0-8 jobs per pipeline loaded from a prepared store file 'from an earlier run' (finished, canceled-unstarted, formerly running, formerly waiting; ages k*30min+7min so that every job is >= 7 minutes away from a period boundary) in shuffled file order, plus 0-4 live jobs per round (waiting, running, finished, failed, canceled) on the REAL JsonDataStore and FileOutputStore with log files for every job; optional reload that removes a pipeline; 1-3 rounds of activity + SaveToStore. Oracle = pure function of (view before, view after, store file, recursive hash of the log tree before/after): no waiting/running job removed; <= retention_count finished jobs left; none older than the period; a kept finished job has no removed newer finished job; nothing removed without settings; undefined pipelines purged; API id set == store id set == restarted runner; removed jobs' log directories gone, kept jobs' log files byte-identical. A situation is (count, period, #finished, #unfinished). Every 25th case: 2-5 SaveToStore calls at the same time on a store whose Save takes 0.5-2 ms, with nothing else going on: whenever one of the calls returns, the last snapshot the store has COMPLETED holds exactly the jobs the API reports. A third of the loaded jobs ended three minutes ago although they were created hours ago (age and order are by creation)",
 		Assumptions: []string{seqAssumption, "ages are never measured against 'now' at check time with less than 7 minutes of margin"},
 		Cases:       func(t string) int { return tierN(t, 500, 12000) },
 		RunCase: func(c *CaseCtx) *CaseResult {
@@ -734,7 +734,7 @@ func init() {
 func init() {
 	register(&Check{
 		ID: "C11", Level: "exploration",
-		Rule:        "shutdown scenarios: state at shutdown begin drawn from a conformance prefix (running multi-task jobs with a subset of tasks done, waiting, delayed-pending, finished jobs) x graceful / forced (deadline 0-1.5 ms) x clients racing the shutdown (schedule directly and via POST /pipelines/schedule, cancel, SaveToStore, snapshots) x a store whose Save takes 0.2-2 ms (saves in flight when Shutdown returns) x a finisher that lets tasks end one at a time (later tasks of multi-task jobs must still be launched during a graceful shutdown). Oracles keyed on the Shutdown return event R: every job terminal and none executing at R; no run-enter without run-exit at R and none after R; reported state deep-equal at R and after all in-flight saves have landed; the last snapshot the store had COMPLETED at R, and the last one that reached it in the end, equal the state at R (directed: a save held inside a slow store and 0-2 further SaveToStore calls waiting for their turn while the shutdown is issued - Shutdown must not return before its own final save was written); no request issued after R accepted (503 over HTTP); requests accepted during the shutdown terminal at R; graceful: jobs running at begin are never told to stop and run all remaining tasks to success, waiting jobs end canceled without running; forced: everything terminal. Every 20th scenario runs on the real JsonDataStore whose directory is away during one or two saves (they fail), comes back, and the runner is shut down: a fresh store instance must load the final state. First cases: the persist loop - an acknowledged schedule / cancel / completion must be carried by a save within 10 s (period 3 s) counted in heartbeats of the harness process, also with a 200 ms Save so that changes land during a save. A situation is (forced, slowSave, clients, #running, #waiting, #finished at begin) and what was observed (request accepted during shutdown, save landing after return, ...)",
+		Rule:        "shutdown scenarios: state at shutdown begin drawn from a conformance prefix (running multi-task jobs with a subset of tasks done, waiting, delayed-pending, finished jobs) x graceful / forced (deadline 0-1.5 ms) x clients racing the shutdown (schedule directly and via POST /pipelines/schedule, cancel, SaveToStore, snapshots) x a store whose Save takes 0.2-2 ms (saves in flight when Shutdown returns) x a finisher that lets tasks end one at a time (later tasks of multi-task jobs must still be launched during a graceful shutdown). Oracles keyed on the Shutdown return event R: every job terminal and none executing at R; no run-enter without run-exit at R and none after R; reported state deep-equal at R and after all in-flight saves have landed; the last snapshot the store had COMPLETED at R, and the last one that reached it in the end, equal the state at R (directed: a save held inside a slow store and 0-2 further SaveToStore calls waiting for their turn while the shutdown is issued - Shutdown must not return before its own final save was written); no request issued after R accepted (503 over HTTP); requests accepted during the shutdown terminal at R; graceful: jobs running at begin are never told to stop and run all remaining tasks to success, waiting jobs end canceled without running; forced: everything terminal. Every 20th scenario runs on the real JsonDataStore whose directory is away during one or two saves (they fail), comes back, and the runner is shut down: a fresh store instance must load the final state. First cases: the persist loop - an acknowledged schedule / cancel / completion must be carried by a save within 10 s (period 3 s) counted in heartbeats of the harness process, also with a 200 ms Save so that changes land during a save. A situation is (forced, slowSave, clients, #running, #waiting, #finished at begin) and what was observed (request accepted during shutdown, save landing after return, ...). Directed case: jobs WAIT next to free slots (a reload raised the concurrency) when the shutdown begins with nothing else going on - they are canceled, never started (graceful and forced); a third of the random scenarios raise the concurrency directly before the shutdown",
 		Assumptions: []string{seqAssumption, "the persist-interval clause is inherently timed: limit 10 s for a 3 s period, measured in heartbeats so that a stalled machine stalls the clock"},
 		Cases:       func(t string) int { return tierN(t, 6, 40) + tierN(t, 4, 24) + tierN(t, 400, 9000) },
 		RunCase: func(c *CaseCtx) *CaseResult {
